@@ -187,7 +187,10 @@ theorem C15_search_ordinal_counterexample :
 /-- an inverted range whose bounds are routed two or more blocks apart makes the slice
 computation fail (`assert!(end >= start)`), where the specification is the empty stream -/
 theorem C15_inverted_range_counterexample :
-    (build 0 [(([1] : Key), 10), ([2], 20), ([3], 30)]).stream (.incl [3]) (.excl [1]) none = none ∧
+    (Gen.RANGE_INVERTED_GUARD = 0 →
+      (build 0 [(([1] : Key), 10), ([2], 20), ([3], 30)]).stream (.incl [3]) (.excl [1]) none = none) ∧
+    (Gen.RANGE_INVERTED_GUARD = 1 →
+      (build 0 [(([1] : Key), 10), ([2], 20), ([3], 30)]).stream (.incl [3]) (.excl [1]) none = some []) ∧
     range [(([1] : Key), 10), ([2], 20), ([3], 30)] (.incl [3]) (.excl [1]) = [] := by decide
 
 /- Still to prove (full statements; the harness compares these operations on every run):
